@@ -231,6 +231,12 @@ def queries(tier):
         out.append(q(f"select t1.a, t2.c from t1 {jt} t2 on t1.a = t2.a order by t1.a, t2.c limit 2", okeys=[(0, False), (1, False)], feat=["join:" + jt.split()[0], "order", "limit"], level=2))
         out.append(q(f"select distinct t1.a from t1 {jt} t2 on t1.a = t2.a", feat=["join:" + jt.split()[0], "distinct"], level=2))
         out.append(q(f"select x.a, t2.c from t1 x {jt} t2 on x.a = t2.a where x.a = 1", feat=["join:" + jt.split()[0], "alias"], level=2))
+    # ORDER BY the key of the RIGHT input of a join (t1 has a primary key in the keyed / pkpk schemas): the sort may only be
+    # dropped if the join that is finally chosen really keeps the right input's order
+    for jt in JOIN_TYPES:
+        out.append(q(f"select t2.a, t2.c, t1.a from t2 {jt} t1 on t2.a = t1.a order by t1.a", okeys=[(2, False)], feat=["join-order-right:" + jt.split()[0]], level=2))
+        out.append(q(f"select t2.c, t1.a, t1.b from t2 {jt} t1 on t2.c = t1.a order by t1.a, t2.c", okeys=[(1, False), (0, False)], feat=["join-order-right:" + jt.split()[0]], level=2))
+        out.append(q(f"select t1.a, count(*) from t2 {jt} t1 on t2.a = t1.a group by t1.a", feat=["join-order-right:" + jt.split()[0], "groupby"], level=2))
     # joins of ordered inputs (merge join becomes eligible on every engine)
     for jt in JOIN_TYPES:
         out.append(q(f"select x.a, x.b, y.a, y.c from (select a, b from t1 order by a) x {jt} (select a, c from t2 order by a) y on x.a = y.a",
